@@ -6,7 +6,7 @@ ids=[p['id'] for p in props]
 T={
  "C01":("differential vs denotational language model (R1); two bounded-exhaustive scopes (small ASTs x flags; nested quantifiers over macro atoms) + seeded random ASTs with shrinking (+ structure-aware libFuzzer target with R1 as in-target oracle in thorough)","4 C01",
         "is_match is compared with an order-independent language-membership model on every AST of size <=4 (quick) / <=5 (thorough) over a 3-letter alphabet x all short inputs x all subsets of i,m,s, and on seeded random structured patterns; a mismatch is shrunk and reported unless it is the listed ForceProgress / fixed-loop-backref finding",
-        "trusts the R1 model (harness/src/oracle_lang.rs) and the R3/R4 character data; explores patterns <= ~20 nodes and inputs <= 8 characters"),
+        "trusts the R1 model (harness/src/oracle_lang.rs) and the R3/R4 character data; explores patterns <= ~20 nodes and inputs <= 8 characters; the scaled part scales one quantity (bound, literal length, alternatives, groups, nesting) to 5-40 with inputs up to 160 characters"),
  "C02":("differential vs ordered-choice reference matcher (R2) and R1 match relation; two bounded-exhaustive scopes + seeded random ASTs with shrinking (+ structure-aware libFuzzer target with R2 as in-target oracle in thorough)","4 C02",
         "the span list observed through analyze/replace_all/tokenize is compared with a Perl-style backtracking reference where mainstream engines agree, and with leftmost/membership clauses from R1 everywhere else",
         "trusts R2 (harness/src/oracle_bt.rs) as the definition of ordered choice; patterns back-referencing a group inside a loop are skipped"),
